@@ -29,8 +29,46 @@ CLAIMS.update({
              text="Wrong cell counts are provably rejected by the guards as modelled; observational equivalence of generated code and CPU kernels is established by execution on seeded random mechanisms, all five parameter sets, L=1..4. Partial: no theorem about the generated programs; LLVM is trusted.",
              note=TB + " Requires llvm-config-14 and the LLVM 14 libraries present in this image."),
 })
+CLAIMS.update({
+ "C03": dict(category="proof", technique="Lean 4 theorems: each of the four table-driven LU kernels (tables built by the modelled Initialize from the modelled symbolic factorisation) computes the dense Doolittle factors, L.U = A for non-zero pivots, independent of prior L/U contents; + bit-exact harness incl. exact comparison of every index stream + exact-rational L.U oracle",
+             text="Unbounded in pattern, size and values (Field): Doolittle, Mozart and both in-place variants produce the same exact factors as dense Doolittle on every pattern (fill closure proved for all four symbolic factorisations), hence L unit lower, U upper, L.U = A. The C++ constructors' index streams are compared entry for entry with the model's flattened tables on all patterns n<=3 (quick) / n<=4 (thorough) and random ones, for CSR/CSC x standard/vector(L) x block counts; numeric results bit-exact.",
+             note=TB + " The vector (lane-strided, n_cells-limited) C++ loops are tied to the per-cell model by execution."),
+ "C04": dict(category="proof", technique="Lean 4 theorems: forward/backward substitution from the modelled solver tables solves (L.U) x = b; composed with C03 gives A x = b for all four variants; + bit-exact harness + residual oracle in exact rationals",
+             text="For every pattern/values with non-zero pivots the modelled Factor+Solve returns x with A x = b (Field theorem, separate and in-place solvers, all four LU variants); blocks are independent by construction of the per-cell model and by the C13 comparison on the real code.",
+             note=TB),
+ "C05": dict(category="proof", technique="Lean 4 theorems over the flattened Solve loop: the matrix handed to every factorisation is alphaMinusJacobian(J(Y), 1/(gamma H)) for any retry history and all four variants (invariant over last_alpha); stage right-hand sides, new solution and error combination follow the packed-triangular formulas; + per-attempt matrices compared bit-for-bit with the model and across separate/in-place variants; BE Newton matrices checked against the predicted step schedule on linear mechanisms",
+             text="Every attempted Rosenbrock step of the model is a genuine step of the method (matrix, stage equations, Ynew, Yerr) for all histories; the C++ is tied by the recorded matrices of each Factor call (first attempts and retries), whole-solve bit-exactness, and independent oracles.",
+             note=TB + " The BE Newton-iteration form is covered by the model correspondence and the linear-mechanism oracle, with C05_be statements limited to what Properties/C05.lean lists."),
+ "C06": dict(category="proof", technique="Lean 4 invariants of the flattened Solve loop (counters = ghost events, time = sum of accepted H, state changes only on acceptance, Converged implies the loop test failed, characterisation of the no-progress case) + status/final_time/counter oracle on real solves incl. time steps below round-off",
+             text="Bookkeeping and outcome truthfulness are theorems about the model for every history; Converged with final_time = 0 is proved to happen exactly when time_step < round_off — a genuine defect of the implementation recorded as known finding KF-C06-1. Partial: rounding of t+H and termination of the retry loop are outside exact arithmetic.",
+             note=TB + " Known finding KF-C06-1 (time_step < round_off) is reported as KNOWN-FINDING."),
+ "C07": dict(category="proof", technique="Lean 4 theorems about ctlDecide/rosSolve over an ordered field (accept iff err<1 or H<h_min; next H formulas incl. no growth after rejection and fixed cut after repeated rejections; first step; H <= remaining; no new step beyond max steps; defaults satisfy LegalParams) + bit-exact whole-solve correspondence under perturbed controller parameters for all layouts (error norm incl. partial groups)",
+             text="The controller rules are theorems about the model's decision function for all parameter values; the model's error norm follows the layout-specific summation order and is compared bit-for-bit through whole solves on every layout and cell count.",
+             note=TB + " pow is uninterpreted in the theorems (its monotonicity is an explicit hypothesis where needed)."),
+ "C10": dict(category="proof", technique="Lean 4 theorems: clamp gives non-negativity on any carrier; under explicit NaN laws (shown satisfiable) a NaN error term forces status NaNDetected, backward Euler never converges on non-finite data and Converged implies finite; + malformed-input stream (NaN/Inf/negative/huge) against the model and an outcome oracle",
+             text="Non-negativity and NaN handling of both integrators are theorems about the model under stated IEEE-style laws; the real code is run on malformed inputs. The Rosenbrock integrator returns Converged for +-Inf in a species no reaction consumes: genuine defect, known finding KF-C10-1. Partial: the laws are assumed for Float; NaN propagation through LU/substitution is not proved.",
+             note=TB + " Known finding KF-C10-1 is reported as KNOWN-FINDING."),
+ "C11": dict(category="proof", technique="Lean 4 dataflow theorems on any carrier (hence Float): rosStep/rosSolve/beSolve results do not depend on scratch contents of equal shape (LU overwrite fact discharged by a verified table replay check), lifted over histories; + implementation-vs-implementation bitwise comparison of reused vs fresh States with NaN/1e300-filled scratch",
+             text="No scratch storage leaks between calls in the model for every history; on the real code a problem solved after arbitrary histories and garbage-filled scratch is bit-identical to a fresh State.",
+             note=TB),
+ "C13": dict(category="proof", technique="Lean 4 lane theorem on any carrier: the flat-storage forcing kernels (row-major and VectorMatrix<L>, padding lanes included) equal the per-cell kernel through the address map for every L and cell count; cell independence corollary; + implementation-vs-implementation bitwise comparison under moving/perturbing other cells, NaN neighbours, different cell counts; N identical cells vs one",
+             text="Cell independence of the forcing is a theorem about a loop-for-loop flat model that is itself compared bit-for-bit (whole AsVector incl. padding) with the C++; Jacobian, LU, linear solve and rate constants are per-cell by construction in the model and compared bitwise on the real code for cells embedded among different neighbours.",
+             note=TB + " Lane theorems exist for forcing and rate constants (C15); Jacobian/LU/solve vector loops are tied by execution."),
+ "C14": dict(category="proof", technique="Lean 4 theorems: name map is a bijection agreeing with variable names with reorder on/off (DiagonalMarkowitzReorder returns a permutation for every pattern), tolerances land on the declared species for every phase; + exact comparison of maps/names/tolerances with the real builder and exhaustive evaluation of the reordering routine for n<=3/4",
+             text="Naming consistency is proved for every system with distinct names; the real builder is compared exactly on random systems with a non-gas phase and tolerance properties.",
+             note=TB + " Generated systems have at most one non-gas phase (unordered_map iteration order is then irrelevant)."),
+ "C15": dict(category="proof", technique="Lean 4 theorems: offset walk of CalculateRateConstants gives each reaction its own parameter slice (by label), for the row-wise and the lane-strided vector layout; + bit-exact comparison of all seven formulas with the real code (16 ulp allowed for transcendental rewrites; observed exact)",
+             text="Association of parameters, labels, cells and reactions is proved for any mix of rate-constant types and every layout; the formulas are transcribed and compared numerically (not proved).",
+             note=TB),
+ "C17": dict(category="proof", technique="Lean 4 refinement theorem: the store machine tracking the dynamic kind of temporary_variables_ never reaches the bad downcast and refines a store of independent values for every history of copy/move/set/solve; + random histories on the real code under ASan+UBSan with copy-vs-original equality",
+             text="Value semantics holds for every history in the model of the (fixed) copy operations; the pre-fix source is proved to reach UB on [new, copy, solve], the defect repaired by fix 249cbac.",
+             note=TB + " Moved-from States are not reused (C++ contract)."),
+ "C20": dict(category="proof", technique="Lean 4 decision-table theorems for Build (exhaustive, source order, never hangs), rejected setters leave the store unchanged; + error injection on the real builder/State/matrices under ASan+UBSan with expected (category, code)",
+             text="Which invalid configuration yields which documented error is proved for the model of Build and checked exactly on the real code; rejected calls are invisible to later valid operations.",
+             note=TB),
+})
 NOT_APPLICABLE = {}
 _ALL = ["C%02d" % i for i in range(1, 21)]
 for _p in _ALL:
     if _p not in CLAIMS:
-        NOT_APPLICABLE[_p] = "check under construction in this commit (not yet claimed); see DESIGN.md §4 for the plan"
+        NOT_APPLICABLE[_p] = "not claimed in this commit: theorem file Properties/%s.lean under construction (the configuration cross-product correspondence already runs); see DESIGN.md" % _p
